@@ -40,8 +40,9 @@ theorem C12_line_kind (l : Line) : (parseLine (lineToJ l)).kind = l.kind := by
   rw [C12_line_routing]
 
 /-- **Export → import isomorphism**: for every well-formed store `g` (distinct node ids,
-relationships between existing nodes, snapshotable values, row and column copies of a
-property in agreement, normalised hierarchy declarations with distinct names), importing
+relationships between existing nodes, snapshotable values, normalised hierarchy declarations
+with distinct names — the row and the column copy of a property may differ: the column wins,
+as in every read path), importing
 what the exporter writes into the empty store succeeds, reports the right counts, and yields
 the same logical graph: same nodes in the same order with the same label lists and merged
 property maps, same relationships (endpoints by node rank, type, properties, multiplicity,
@@ -143,6 +144,16 @@ theorem C12_counterexample_hierarchy :
   constructor
   · rfl
   · simp [hierLineLegacy, hierLine, reversedH]
+
+def clashNode : NodeS := { id := 0, labels := [[65]], row := [([107], .int 1)], col := [([107], .int 2)] }
+
+/-- pinned tree: where the row and the column copy of a property differ, reads resolve the
+column (`mergedView` gives 2) but the exporter wrote the row copy (1) -/
+theorem C12_counterexample_row_wins :
+    exportProps true clashNode.row clashNode.col = [([107], .int 1)]
+    ∧ mergedView clashNode = [([107], .int 2)]
+    ∧ exportProps false clashNode.row clashNode.col = mergedView clashNode := by
+  refine ⟨by rfl, by rfl, by rfl⟩
 
 def tagMap : PV := .map [(kType, .str tDateTime), (kValue, .int 5)]
 
